@@ -8,6 +8,10 @@
 (*   <<"qdef", label>>  a block quote that holds the definition; <<"nref", label>> a note    *)
 (*                      directive whose body holds the reference (containers: the registries *)
 (*                      are the document's, whatever the nesting)                            *)
+(*   <<"dref", label>>  a second paragraph INSIDE the body of the definition written just     *)
+(*                      before it (always a <<"def", _>> event), containing [^label]: a       *)
+(*                      reference that is no top-level block; if that definition is a dropped  *)
+(*                      duplicate its text, and this reference with it, is not in the document *)
 (* labels are strings; the numeric ones ("1", "2", ...) are manually numbered.              *)
 (* M: the render actions (render_footnote_ref / render_footnote_reference with its          *)
 (* duplicate check against document.nameids) and then the transform chain in priority       *)
@@ -24,10 +28,11 @@ NumOf(l) == CASE l = "1" -> 1 [] l = "2" -> 2 [] l = "3" -> 3 [] l = "4" -> 4 []
 IsNum(l) == NumOf(l) > 0
 EvVocab == {<<k, l>> : k \in {"ref", "def"}, l \in Labels} \cup (IF WithHr THEN {<<"hr", "-">>} ELSE {})
            \cup (IF WithHead THEN {<<"head", l>> : l \in {x \in Labels : ~IsNum(x)}} ELSE {})
-           \cup (IF WithNested THEN {<<k, l>> : k \in {"qdef", "nref"}, l \in Labels} ELSE {})
+           \cup (IF WithNested THEN {<<k, l>> : k \in {"qdef", "nref", "dref"}, l \in Labels} ELSE {})
 IsRefEv(e) == e[1] \in {"ref", "nref"}
 IsDefEv(e) == e[1] \in {"def", "qdef"}
-Arrangements == UNION {[1..n -> EvVocab] : n \in 0..MaxEv}
+WellPlaced(s) == \A k \in 1..Len(s) : s[k][1] = "dref" => (k > 1 /\ s[k - 1][1] = "def")
+Arrangements == {s \in UNION {[1..n -> EvVocab] : n \in 0..MaxEv} : WellPlaced(s)}
 
 VARIABLES evs, sort, trans,     \* the input: arrangement, footnote_sort, footnote_transition
           pc, pos,
@@ -53,6 +58,11 @@ RenderRef == /\ pc = "render" /\ pos <= Len(evs) /\ IsRefEv(evs[pos])
              /\ refs' = Append(refs, [l |-> evs[pos][2], at |-> pos])
              /\ pos' = pos + 1
              /\ UNCHANGED <<evs, sort, trans, pc, defs, dupw, autos, num, unrefw, final>>
+(* a reference inside a definition's body: registered like any other, unless the body was dropped *)
+RenderDRef == /\ pc = "render" /\ pos <= Len(evs) /\ evs[pos][1] = "dref"
+              /\ refs' = IF (pos - 1) \in dupw THEN refs ELSE Append(refs, [l |-> evs[pos][2], at |-> pos])
+              /\ pos' = pos + 1
+              /\ UNCHANGED <<evs, sort, trans, pc, defs, dupw, autos, num, unrefw, final>>
 RenderDef == /\ pc = "render" /\ pos <= Len(evs) /\ IsDefEv(evs[pos])
              /\ IF evs[pos][2] \in DefLabels                    \* target in document.nameids
                 THEN dupw' = dupw \cup {pos} /\ UNCHANGED <<defs, autos, num>>
@@ -103,6 +113,7 @@ DetectStep == /\ pc = "detect"
 Original == [k \in 1..Len(evs) |->
                IF evs[k][1] = "ref" THEN <<"p", k>>
                ELSE IF evs[k][1] = "nref" THEN <<"n", k>>
+               ELSE IF evs[k][1] = "dref" THEN <<"x", k>>                  \* no block of its own: it travels with its definition
                ELSE IF evs[k][1] = "qdef" THEN <<"q", k, IF k \in dupw THEN "warn" ELSE "fn">>     \* the quote and what it holds
                ELSE IF evs[k][1] = "hr" THEN <<"h", k>>
                ELSE IF evs[k][1] = "head" THEN <<"s", k>>
@@ -115,7 +126,7 @@ CollectStep == /\ pc = "collect"
                /\ final' = IF ~sort THEN Original
                            ELSE LET moved == [k \in 1..Len(Original) |-> IF Original[k][1] = "q" /\ Original[k][3] = "fn"
                                                                            THEN <<"q", Original[k][2], "empty">> ELSE Original[k]]   \* the footnote leaves its quote
-                                    others == SelectSeq(moved, LAMBDA it : it[1] # "f")
+                                    others == SelectSeq(moved, LAMBDA it : it[1] \notin {"f", "x"})
                                     fns == OrderByNum(1..Len(defs))
                                 IN others
                                    \o (IF trans /\ defs # <<>> /\ others # <<>> /\ others[Len(others)][1] # "h"
@@ -124,7 +135,7 @@ CollectStep == /\ pc = "collect"
                /\ pc' = "done"
                /\ UNCHANGED <<evs, sort, trans, pos, defs, refs, dupw, autos, num, unrefw>>
 
-Next == RenderRef \/ RenderDef \/ RenderOther \/ RenderEnd \/ SortStep \/ NumberStep \/ DetectStep \/ CollectStep
+Next == RenderRef \/ RenderDRef \/ RenderDef \/ RenderOther \/ RenderEnd \/ SortStep \/ NumberStep \/ DetectStep \/ CollectStep
 Spec == Init /\ [][Next]_vars /\ WF_vars(Next)
 Done == pc = "done"
 
@@ -136,7 +147,7 @@ RefView == [r \in 1..Len(refs) |->
 (* declaratively, from the arrangement alone *)
 SDefAt == {k \in 1..Len(evs) : IsDefEv(evs[k]) /\ \A j \in 1..(k - 1) : ~(IsDefEv(evs[j]) /\ evs[j][2] = evs[k][2])}   \* (a heading is no definition)
 SDupAt == {k \in 1..Len(evs) : IsDefEv(evs[k])} \ SDefAt
-SRefAt(l) == {k \in 1..Len(evs) : IsRefEv(evs[k]) /\ evs[k][2] = l}
+SRefAt(l) == {k \in 1..Len(evs) : evs[k][2] = l /\ (IsRefEv(evs[k]) \/ (evs[k][1] = "dref" /\ (k - 1) \in SDefAt))}
 KeepFirst == Done => /\ {defs[d].at : d \in 1..Len(defs)} = SDefAt     \* first definition kept, no text lost
                      /\ dupw = SDupAt                                     \* exactly one warning per duplicate
 LabelsDistinct == Done => \A a, c \in 1..Len(defs) : a # c => num[a] # num[c] /\ num[a] > 0
@@ -167,13 +178,14 @@ Collected == (Done /\ sort) =>
      /\ (\E k \in 1..n : final[k] = <<"t">>) => (trans /\ final[n - nf] = <<"t">>)   \* only there, only when configured
      /\ \A k \in 1..(n - 1) : ~(final[k][1] \in {"t", "h"} /\ final[k + 1][1] \in {"t", "h"} /\ final[k + 1] = <<"t">>)   \* never adjacent to another
      /\ LET KA(sq) == [k \in 1..Len(sq) |-> <<sq[k][1], sq[k][2]>>] IN               \* every other block stays where it was
-        KA(SelectSeq(final, LAMBDA it : it[1] \in {"p", "w", "h", "s", "n", "q"})) = KA(SelectSeq(Original, LAMBDA it : it[1] # "f"))
+        KA(SelectSeq(final, LAMBDA it : it[1] \in {"p", "w", "h", "s", "n", "q"})) = KA(SelectSeq(Original, LAMBDA it : it[1] \notin {"f", "x"}))
      /\ \A k \in 1..n : final[k][1] = "q" => final[k][3] # "fn"                       \* no definition is left behind in a container
 InPlace == (Done /\ ~sort) => final = Original
+Visible(f) == SelectSeq(f, LAMBDA it : it[1] # "x")        \* the top-level blocks
 Terminates == <>Done
 
 Emit == Done => PrintT(ToJson([evs |-> evs, sort |-> sort, trans |-> trans,
                                defs |-> defs, num |-> num, refview |-> RefView,
                                backrefs |-> [d \in 1..Len(defs) |-> Cardinality(RefsTo(defs[d].l))],
-                               dupw |-> dupw, unrefw |-> unrefw, final |-> final]))
+                               dupw |-> dupw, unrefw |-> unrefw, final |-> Visible(final)]))
 =============================================================================
